@@ -787,3 +787,105 @@ pub fn c08_node_level(ctx: &Ctx, rep: &mut Report) {
     });
     rep.floor("node_open_storm_all_answered_once", 12);
 }
+
+// ---------------------------------------------------------------------------------------------
+// C10 node level: on the real TCP transport the address a success is attributed to is the address
+// that was offered and dialed (ip4 / dns / dns4 forms), and a later dial by peer id hands out only
+// addresses that were offered.
+// ---------------------------------------------------------------------------------------------
+
+async fn c10_address_case(seed: u64, exec: &ChaosExecutor, host: &str) -> Result<(String, String, Vec<String>), String> {
+    let mut rng = Rng::new(seed);
+    let a = spawn_side_with(&mk_cfg(rng.u64(), Duration::from_secs(30)), exec, None, false)?;
+    let b = spawn_side_with(&mk_cfg(rng.u64(), Duration::from_secs(30)), exec, None, false)?;
+    let proxy = Proxy::start(b.node.socket, ProxyPlan::default()).await.map_err(|e| e.to_string())?;
+    let bp = b.node.peer;
+    let offered: multiaddr::Multiaddr = format!("{host}/tcp/{}", proxy.addr.port()).parse().map_err(|e| format!("{e:?}"))?;
+    // (the address book only takes addresses that end in /p2p/<peer>)
+    if a.node.add_known(bp, vec![offered.clone().with(multiaddr::Protocol::P2p(bp.into()))]).await != 1 {
+        return Err("address not accepted".into());
+    }
+    a.node.dial(bp).await?;
+    if !wait_until(Instant::now() + Duration::from_secs(6), || est_count(&a.node, &bp) > 0).await {
+        return Err("not connected (name resolution?)".into());
+    }
+    let reported = a
+        .node
+        .events_snapshot()
+        .iter()
+        .find_map(|(_, _, e)| match e {
+            NodeEvent::Established { peer, address, listener: false, .. } if *peer == bp => Some(address.to_string()),
+            _ => None,
+        })
+        .unwrap_or_default();
+    // the remote becomes unreachable; the next dial by peer id shows what the address book holds
+    proxy.refuse_new(true);
+    proxy.kill_all();
+    if !wait_until(Instant::now() + Duration::from_secs(6), || closed_count(&a.node, &bp) > 0).await {
+        return Err("connection did not close".into());
+    }
+    let df0 = dial_failures(&a.node);
+    a.node.dial(bp).await?;
+    wait_until(Instant::now() + Duration::from_secs(6), || dial_failures(&a.node) > df0).await;
+    let mut handed_out: Vec<String> = Vec::new();
+    for (_, _, e) in a.node.events_snapshot().iter() {
+        match e {
+            NodeEvent::ListDialFailures { addresses } => handed_out.extend(addresses.iter().map(|x| x.to_string())),
+            NodeEvent::DialFailure { address, .. } => handed_out.push(address.to_string()),
+            _ => {}
+        }
+    }
+    Ok((offered.to_string(), reported, handed_out))
+}
+
+pub fn c10_node_level(ctx: &Ctx, rep: &mut Report) {
+    let rt = tokio::runtime::Builder::new_multi_thread().worker_threads(2).enable_all().build().expect("runtime");
+    let hosts = ["/ip4/127.0.0.1", "/dns/localhost", "/dns4/localhost"];
+    let mut cases: Vec<(u64, String)> = Vec::new();
+    if let Some(path) = &ctx.replay {
+        let v: Value = serde_json::from_slice(&std::fs::read(path).expect("replay")).expect("json");
+        cases.push((v["replay"]["seed"].as_u64().unwrap_or(1), v["replay"]["host"].as_str().unwrap_or("/ip4/127.0.0.1").to_string()));
+    } else {
+        let mut rng = ctx.rng("c10-node");
+        for h in hosts.iter() {
+            cases.push((rng.u64(), h.to_string()));
+        }
+    }
+    rt.block_on(async {
+        let exec = ChaosExecutor::new(tokio::runtime::Handle::current(), ctx.seed, 0.0);
+        for (seed, host) in cases {
+            rep.case(&("node-address", seed, &host), true);
+            let replay = json!({"family": "node-address", "seed": seed, "host": host});
+            match c10_address_case(seed, &exec, &host).await {
+                Err(e) => {
+                    rep.hit("node_address_case_not_run");
+                    rep.hit(&format!("node_address_case_not_run_{}", e.replace([' ', '(', ')', '?', ':'], "_")));
+                }
+                Ok((offered, reported, handed_out)) => {
+                    rep.hit("node_address_cases");
+                    let tag = host.trim_start_matches('/').split('/').next().unwrap_or("x").to_string();
+                    if reported != offered {
+                        rep.violation(
+                            format!("C10/node/success-attributed-to-another-address/{tag}"),
+                            format!("offered and dialed {offered}, the established connection reports {reported}"),
+                            replay.clone(),
+                        );
+                    } else {
+                        rep.hit("node_address_success_attributed_to_dialed_address");
+                    }
+                    let foreign: Vec<&String> = handed_out.iter().filter(|x| !x.starts_with(&offered)).collect();
+                    if !foreign.is_empty() {
+                        rep.violation(
+                            format!("C10/node/address-nobody-offered-is-dialed/{tag}"),
+                            format!("only {offered} was offered for the peer; a later dial by peer id tried {foreign:?}"),
+                            replay,
+                        );
+                    } else if !handed_out.is_empty() {
+                        rep.hit("node_address_redial_uses_only_offered_addresses");
+                    }
+                }
+            }
+        }
+    });
+    rep.floor("node_address_success_attributed_to_dialed_address", 8);
+}
